@@ -233,10 +233,10 @@ func (fr *Frame) loopWrites(li *loopInfo) (cells map[ssa.Value]bool, heaps map[s
 			case *ssa.Send:
 				fr.chanGhostWrites(heaps, "chsends", "chlast")
 			case *ssa.Select:
-				fr.chanGhostWrites(heaps, "chsends", "chlast", "chrecvs", "chlastrecv")
+				fr.chanGhostWrites(heaps, "chsends", "chlast", "chrecvs", "chrecvsclosed", "chlastrecv")
 			case *ssa.UnOp:
 				if in.Op == token.ARROW {
-					fr.chanGhostWrites(heaps, "chrecvs", "chlastrecv")
+					fr.chanGhostWrites(heaps, "chrecvs", "chrecvsclosed", "chlastrecv")
 				}
 			case *ssa.Call:
 				if b, ok := in.Call.Value.(*ssa.Builtin); ok && b.Name() == "close" {
